@@ -286,7 +286,9 @@ func (r *Run) assertLabel(c *Term, label string) {
 	}
 	if r.inPrefix() {
 		if c.IsConst() {
-			// unconditional failure already reported by the parent path
+			// unconditional failure: the finding was reported by the parent
+			// path, the event still belongs to this path's trace
+			r.events = append(r.events, Event{Kind: "fail", Label: label})
 			return
 		}
 		r.assume(c)
